@@ -1254,7 +1254,24 @@ def rule_register_early(prog, res, rule="R-REGISTER-EARLY"):
                         if len(a) >= 2 and (ir.ap(ir.strip(a[0])) or "") == q and (ir.ap(ir.strip(a[1])) or "") == "&" + owner + "reader":
                             return True
                     return False
-                ok, w = paths.all_paths_pass(f, (b.id, i), "exit", registers)
+                def registers_any(x):
+                    # inside a helper the queue and the reader are named through the helper's own parameter
+                    for cc in calls(x, "channel_read_map"):
+                        a = cc.get("args", [])
+                        if len(a) >= 2 and (ir.ap(ir.strip(a[0])) or "").endswith("in") and (ir.ap(ir.strip(a[1])) or "").endswith("reader"):
+                            return True
+                    return False
+
+                def registers_or_helper(x, registers=registers):
+                    if registers(x):
+                        return True
+                    for cc in ir.calls_in(x):
+                        h = prog.resolve(cc["fn"], f) if cc.get("fn") else None
+                        if h is not None and h is not f and h.blocks and h.file == f.file and \
+                                paths.all_paths_pass(h, "entry", "exit", registers_any)[0]:
+                            return True
+                    return False
+                ok, w = paths.all_paths_pass(f, (b.id, i), "exit", registers_or_helper)
                 inst = "%s: the reader of the queue it creates is registered before any writer can exist" % f.name
                 n += 1
                 if ok:
